@@ -545,14 +545,7 @@ func famTextrt(c *Ctx) {
 		spent++
 	}
 	for spent < c.N {
-		switch k := c.Intn(6); {
-		case k < 2 && len(rnd) > 0:
-			run(rnd[c.Intn(len(rnd))])
-		case k < 5 && len(heavy) > 0:
-			run(heavy[c.Intn(len(heavy))])
-		default:
-			run(all[c.Intn(len(all))])
-		}
+		run(rtPick(c, all, heavy, rnd))
 		spent++
 	}
 }
